@@ -34,6 +34,7 @@ func runC09(c *core.Ctx) {
 	ruleInStreamGuards(c, "C09-R10") // strings are encrypted under the key of the object they belong to
 	ruleUserKeyComparison(c, "C09-R12")
 	ruleWriterSideDefaults(c, "C09-R13")
+	ruleEncryptMetadataDomain(c, "C09-R14")
 	ruleCryptoConstants(c, "C09-R11") // the standard's algorithms: a conforming file's correct password must be accepted
 }
 
@@ -1122,5 +1123,112 @@ func ruleWriterSideDefaults(c *core.Ctx, rule string) {
 		if !okAny {
 			o.Fail("/EncryptMetadata false is not written for every revision >= 4 with unencrypted metadata: %s; the reader then derives a different file key and rejects both passwords", strings.Join(why, "; "))
 		}
+	})
+}
+
+// ruleEncryptMetadataDomain (C09-R14): /EncryptMetadata is meaningful for V
+// 4 and 5 (ISO 32000-2 Table 21), and the writer emits it for exactly those
+// (AES) schemes.  The reader must honour the entry under a condition on V
+// that is equivalent to V >= 4: if it is ignored for V = 4, a file written
+// with unencrypted metadata derives a different file key on reading (the
+// 0xFFFFFFFF suffix of Algorithm 2 step (g) is left out) and every correct
+// password is rejected; if it is honoured for V < 4 the same happens the
+// other way round for foreign files.
+func ruleEncryptMetadataDomain(c *core.Ctx, rule string) {
+	c.Check(rule, "pdf.openStdSecHandler/encrypt-metadata", "the reader honours /EncryptMetadata exactly when V >= 4", func(o *core.Ob) {
+		fn := c.Prog.Func("pdf", "openStdSecHandler")
+		g := fn.Graph()
+		info := fn.Info()
+		n := 0
+		for _, v := range g.Vs {
+			if v.AST == nil {
+				continue
+			}
+			reads := false
+			for _, cs := range core.CallsIn(info, v.AST, false) {
+				if !strings.HasSuffix(cs.Key, ".Boolean") && !strings.HasSuffix(cs.Key, "GetBoolean") {
+					continue
+				}
+				for _, a := range cs.Call.Args {
+					if ix, ok := ast.Unparen(a).(*ast.IndexExpr); ok {
+						if k, ok := core.StringConst(info, ix.Index); ok && k == "EncryptMetadata" {
+							reads = true
+						}
+					}
+				}
+			}
+			if !reads {
+				continue
+			}
+			n++
+			o.At(fn.Site(v.AST, "reads /EncryptMetadata"))
+			// the dominating facts that compare one integer variable with a constant
+			var vID *ast.Ident
+			var vObj types.Object
+			var atoms []core.Atom
+			// (only the conditions of the innermost enclosing if statement that
+			// has such a comparison: range checks of other entries further up do
+			// not belong to this decision)
+			var ifs []*ast.IfStmt
+			ast.Inspect(fn.Decl.Body, func(m ast.Node) bool {
+				if is, ok := m.(*ast.IfStmt); ok && is.Body.Pos() <= v.AST.Pos() && v.AST.End() <= is.Body.End() {
+					ifs = append(ifs, is)
+				}
+				return true
+			})
+			all := g.DominatingAtoms(v)
+			var local []core.Atom
+			for i := len(ifs) - 1; i >= 0 && len(local) == 0; i-- {
+				for _, a := range all {
+					if _, isCmp := a.AsCmp(); isCmp && ifs[i].Cond.Pos() <= a.Expr.Pos() && a.Expr.End() <= ifs[i].Cond.End() {
+						local = append(local, a)
+					}
+				}
+			}
+			for _, a := range local {
+				cmp, ok := a.AsCmp()
+				if !ok {
+					continue
+				}
+				for _, pr := range [][2]ast.Expr{{cmp.L, cmp.R}, {cmp.R, cmp.L}} {
+					id, isID := ast.Unparen(pr[0]).(*ast.Ident)
+					_, isK := core.IntConst(info, pr[1])
+					if !isID || !isK {
+						continue
+					}
+					obj := info.ObjectOf(id)
+					if b, isBasic := obj.Type().Underlying().(*types.Basic); !isBasic || b.Info()&types.IsInteger == 0 {
+						continue
+					}
+					if vObj != nil && vObj != obj {
+						o.Unrec("the read of /EncryptMetadata is guarded by conditions on two integer variables (%s, %s)", vObj.Name(), obj.Name())
+						return
+					}
+					vObj, vID = obj, id
+					atoms = append(atoms, a)
+				}
+			}
+			if vObj == nil {
+				o.FailAt(fn.Site(v.AST, ""), "/EncryptMetadata is honoured without regard to V (it is meaningful for V >= 4 only)")
+				continue
+			}
+			want := core.Atom{Expr: &ast.BinaryExpr{X: vID, Op: token.GEQ, Y: &ast.BasicLit{Kind: token.INT, Value: "4"}}}
+			// V ranges over the values parseEncryptDict lets through
+			dom := core.Atom{Expr: &ast.BinaryExpr{X: vID, Op: token.GEQ, Y: &ast.BasicLit{Kind: token.INT, Value: "1"}}}
+			dom2 := core.Atom{Expr: &ast.BinaryExpr{X: vID, Op: token.LEQ, Y: &ast.BasicLit{Kind: token.INT, Value: "5"}}}
+			h1, c1, d1 := c.Prog.Implies(core.Formula{Fn: fn, Atoms: []core.Atom{want, dom, dom2}}, core.Formula{Fn: fn, Atoms: atoms})
+			h2, c2, d2 := c.Prog.Implies(core.Formula{Fn: fn, Atoms: append([]core.Atom{dom, dom2}, atoms...)}, core.Formula{Fn: fn, Atoms: []core.Atom{want}})
+			if !d1 || !d2 {
+				o.Unrec("the condition on %s was not decided", vObj.Name())
+				continue
+			}
+			if !h1 {
+				o.FailAt(fn.Site(v.AST, ""), "/EncryptMetadata is ignored for a value of %s that is >= 4 (%s): a file written with plaintext metadata derives a different key on reading", vObj.Name(), c1)
+			}
+			if !h2 {
+				o.FailAt(fn.Site(v.AST, ""), "/EncryptMetadata is honoured for a value of %s below 4 (%s)", vObj.Name(), c2)
+			}
+		}
+		o.Shape(n > 0, "no read of /EncryptMetadata found in openStdSecHandler")
 	})
 }
